@@ -254,9 +254,9 @@ package invocation
 //@ // sealedNode names the envelope node toIPLD builds for (token, key); toIPLD itself is trusted here
 //@ ghost func sealedNodei(t *Token, k crypto.PrivKey) datamodel.Node
 //@ // input validity for sealing: a token as built by the constructors or the decoder (non-nil metadata, issuer in generated form, well-formed policy) and a key
-//@ pure func canSeal(t *Token, k crypto.PrivKey) bool = t != nil && k != nil && t.meta != nil && wfDID(t.issuer)
+//@ pure func canSeali(t *Token, k crypto.PrivKey) bool = t != nil && k != nil && t.meta != nil && wfDID(t.issuer)
 //@ func (*Token).toIPLD
-//@   requires canSeal(t, privKey)
+//@   requires canSeali(t, privKey)
 //@   assumes result1 == nil ==> result0 == sealedNodei(t, privKey)
 //@   ensures result1 == nil ==> result0 != nil
 //@   ensures [C07] model: result1 == nil ==> sealedModel(result0) is *tokenPayloadModel && sealedModel(result0).(*tokenPayloadModel) != nil && modelOfi(sealedModel(result0).(*tokenPayloadModel), t)
@@ -266,19 +266,19 @@ package invocation
 //@  && (t.expiration == nil ? m.Exp == nil : (m.Exp != nil && *m.Exp == unixOf(*t.expiration)))
 //@  && (t.invokedAt == nil ? m.Iat == nil : (m.Iat != nil && *m.Iat == unixOf(*t.invokedAt)))
 //@ func (*Token).Encode
-//@   requires canSeal(t, privKey)
+//@   requires canSeali(t, privKey)
 //@   ensures [C08,C18] bytes: result1 == nil ==> bytes(result0) == encodeWith(encFn, sealedNodei(t, privKey))
 //@ func (*Token).ToSealed
-//@   requires canSeal(t, privKey)
+//@   requires canSeali(t, privKey)
 //@   ensures [C08] cid: result2 == nil ==> result1 == ucanCid(bytes(result0))
 //@   ensures [C08,C18] bytes: result2 == nil ==> bytes(result0) == encodeWith(dagcbor.Encode, sealedNodei(t, privKey))
 //@ func (*Token).EncodeWriter
 //@   inline
-//@   requires canSeal(t, privKey) && w != nil
+//@   requires canSeali(t, privKey) && w != nil
 //@   ensures [C18] bytes: result == nil ==> written(w) == old(written(w)) ++ encodeWith(encFn, sealedNodei(t, privKey)) && wfailed(w) == old(wfailed(w))
 //@   assigns written(w), wfailed(w)
 //@ func (*Token).ToSealedWriter
-//@   requires canSeal(t, privKey) && w != nil
+//@   requires canSeali(t, privKey) && w != nil
 //@   use cid_sum_sha256
 //@   ensures [C18] bytes: result1 == nil ==> written(w) == old(written(w)) ++ encodeWith(dagcbor.Encode, sealedNodei(t, privKey)) && wfailed(w) == old(wfailed(w))
 //@   ensures [C08,C18] cid: result1 == nil ==> result0 == ucanCid(encodeWith(dagcbor.Encode, sealedNodei(t, privKey)))
